@@ -44,6 +44,11 @@ impl StorePath {
     pub fn len(&self) -> usize {
         self.0.len()
     }
+
+    /// Returns `true` if the path begins with all the segments of `prefix`.
+    pub(crate) fn starts_with(&self, prefix: &StorePath) -> bool {
+        self.0.starts_with(&prefix.0)
+    }
 }
 
 /// One segment of a [`StorePath`].
